@@ -1,0 +1,6 @@
+//go:build !verif
+
+package db
+
+// no verification hooks in normal builds
+var verifOpenFileHook func(file string) (*Database, error)
